@@ -35,3 +35,46 @@ func VerifC13Inject() {
 	nd.Assert((k1 == k2) == same, "C13-injective")
 	nd.Reach("end")
 }
+
+func vBytesEqual(a, b []byte) bool {
+	if len(a) != len(b) {
+		return false
+	}
+	for i := range a {
+		if a[i] != b[i] {
+			return false
+		}
+	}
+	return true
+}
+
+// VerifC13InjectB: the same for binary-typed hash and range keys (all byte strings of 1..cap bytes), and for a
+// string-typed hash with a binary-typed range.
+func VerifC13InjectB() {
+	cap := nd.Param("cap", 2)
+	hashS := nd.Choice("hash-is-string", 2) == 1
+	ks := keySchema{HashKey: "h", RangeKey: "r"}
+	defs := map[string]string{"h": "B", "r": "B"}
+	if hashS {
+		defs["h"] = "S"
+	}
+	mk := func(name string) (h []byte, r []byte, item map[string]*types.Item) {
+		h = nd.Bytes(name+".h", 1+nd.Choice(name+".h.len", cap))
+		r = nd.Bytes(name+".r", 1+nd.Choice(name+".r.len", cap))
+		item = map[string]*types.Item{"r": {B: r}}
+		if hashS {
+			item["h"] = vS(string(h))
+		} else {
+			item["h"] = &types.Item{B: h}
+		}
+		return
+	}
+	h1, r1, it1 := mk("k1")
+	h2, r2, it2 := mk("k2")
+	k1, e1 := ks.GetKey(defs, it1)
+	k2, e2 := ks.GetKey(defs, it2)
+	nd.Assert(e1 == nil && e2 == nil, "C13-binary-nokeyerr")
+	same := vBytesEqual(h1, h2) && vBytesEqual(r1, r2)
+	nd.Assert((k1 == k2) == same, "C13-binary-keys-injective")
+	nd.Reach("end")
+}
